@@ -575,6 +575,37 @@ Proof.
   repeat split; auto. intros i Hi. apply (trace_ok_nth iv atts 0 0%nat calls Ht i Hi).
 Qed.
 
+(** an operation that keeps failing with plain errors is retried for as long as the input
+    lasts: nothing but the horizon ends it when nobody cancels *)
+Theorem retries_while_failing : forall iv maxd pick0 calls atts r te, iv <> [] ->
+  Forall (fun c => c_out c = OPlain) calls ->
+  do_with_retry iv maxd None pick0 calls = (atts, r, te) ->
+  (r = RPending /\ length atts = length calls) \/ ((r = RGiveUpNil \/ r = RLoopExit) /\ maxd <= te).
+Proof.
+  intros iv maxd pick0 calls atts r te Hne Hpl H.
+  destruct (stops_on_success_cancel_noretry iv maxd None pick0 calls atts r te Hne H) as (Hs & Ho & Hc & Hp & Hg).
+  assert (Hall : forall a, In a atts -> a_out a = OPlain).
+  { intros a Ha. destruct (In_nth _ _ att0 Ha) as (i & Hi & <-). rewrite (Ho i Hi).
+    destruct (Nat.lt_ge_cases i (length calls)) as [Hlt|Hge].
+    - rewrite Forall_forall in Hpl. apply Hpl. apply nth_In. exact Hlt.
+    - exfalso. (* more attempts than calls is impossible *)
+      destruct (retry_loop_spec iv maxd None pick0 calls 0 0 atts r te Hne H) as (Ht & _).
+      clear - Ht Hi Hge. revert Ht Hi Hge. generalize 0%Z, 0%nat. revert i calls.
+      induction atts as [|a atts IH]; intros i calls t kk Ht Hi Hge; [cbn in Hi; lia|].
+      destruct calls as [|c calls]; [exact Ht|]. cbn [trace_ok] in Ht. destruct Ht as (_ & _ & _ & _ & Ht).
+      destruct i as [|i]; [cbn in Hge; lia|]. apply (IH i calls _ _ Ht); cbn [length] in *; lia. }
+  assert (Hno : forall l a o, atts = l ++ [a] -> a_out a = o -> o <> OPlain -> False).
+  { intros l a o -> Ho' Hne'. apply Hne'. rewrite <- Ho'. apply Hall. apply in_or_app. right. left. reflexivity. }
+  destruct r; cbn [stop_ok] in Hs.
+  - destruct Hs as (l & a & E & _ & Ho'). exfalso. apply (Hno l a OOk E Ho'). discriminate.
+  - destruct Hs as (l & a & E & _ & Ho'). exfalso. apply (Hno l a OCanceled E Ho'). discriminate.
+  - destruct Hs as (l & a & E & _ & Ho'). exfalso. apply (Hno l a ONoRetry E Ho'). discriminate.
+  - exfalso. apply Hc; reflexivity.
+  - right. split; [left; reflexivity|apply Hg; left; reflexivity].
+  - right. split; [right; reflexivity|apply Hg; right; reflexivity].
+  - left. split; [reflexivity|apply Hp; reflexivity].
+Qed.
+
 (** cancellation stops the retries promptly: no attempt starts after the cancellation instant
     (attempt 0 excepted when the context was cancelled before the call — Go's select may pick
     either ready case), and the loop returns at the cancellation instant or, if an attempt
